@@ -45,9 +45,19 @@ func runWorker(in, out, prog string, caseTimeout time.Duration) int {
 	w := bufio.NewWriterSize(of, 1<<20)
 	var mu sync.Mutex
 	enc := json.NewEncoder(w)
+	var caseEvents, caseNo int
+	var caseID string
 	emit := func(v interface{}) {
 		mu.Lock()
 		defer mu.Unlock()
+		if caseEvents++; caseEvents > maxCaseEvents {
+			// a case that floods the trace (e.g. a Reader that keeps asking a failed source without
+			// ever returning) is a case that does not terminate
+			w.Flush()
+			fmt.Fprintf(os.Stderr, "runaway: more than %d events in one case\n", maxCaseEvents)
+			fmt.Fprintf(pf, "HANG %d %s\n", caseNo, caseID)
+			os.Exit(3)
+		}
 		if err := enc.Encode(v); err != nil {
 			fmt.Fprintln(os.Stderr, "worker: encode:", err)
 		}
@@ -63,6 +73,9 @@ func runWorker(in, out, prog string, caseTimeout time.Duration) int {
 			fmt.Fprintln(os.Stderr, "worker: bad case:", err)
 			return 2
 		}
+		mu.Lock()
+		caseEvents, caseNo, caseID = 0, n, h.ID
+		mu.Unlock()
 		fmt.Fprintf(pf, "START %d %s\n", n, h.ID)
 		done := make(chan struct{})
 		go func() {
@@ -107,3 +120,7 @@ func execCase(h caseHeader, raw []byte, arch int, emit func(interface{})) {
 
 // families registers the executors of the other case families.
 var families = map[string]func(raw []byte, arch int, emit func(interface{})){}
+
+// maxCaseEvents bounds the events of one case (the recorders merge uniform successes, so that
+// the longest legitimate case stays far below this).
+const maxCaseEvents = 300000
